@@ -38,8 +38,8 @@ LabCases(cs, n) ==
 LabS(s, n) ==
   CASE s.k = "if" -> LET c == LabC(s.c, n) a == LabB(s.a, c.n) b == LabB(s.b, a.n) IN
                      [v |-> [s EXCEPT !.c = c.v, !.a = a.v, !.b = b.v], n |-> b.n]
-    [] s.k = "switch" -> LET c == LabC(s.c, n) cs == LabCases(s.cases, IF s.form = "typeb" THEN c.n + 1 ELSE c.n) IN
-                     [v |-> [s EXCEPT !.c = c.v, !.cases = cs.v], n |-> cs.n]
+    [] s.k = "switch" -> LET i == LabSimple(s.init, n) c == LabC(s.c, i.n) cs == LabCases(s.cases, IF s.form = "typeb" THEN c.n + 1 ELSE c.n) IN
+                     [v |-> [s EXCEPT !.init = i.v, !.c = c.v, !.cases = cs.v], n |-> cs.n]
     [] s.k = "block" -> LET b == LabB(s.body, n) IN [v |-> [s EXCEPT !.body = b.v], n |-> b.n]
     [] s.k = "unsup" -> [v |-> [s EXCEPT !.id = n], n |-> n + 4]      \* four ids reserved for the parts of the construct
     [] s.k = "range" -> LET b == LabB(s.body, n + 1) IN [v |-> [s EXCEPT !.id = n, !.body = b.v], n |-> b.n]
@@ -55,6 +55,7 @@ Label(prog) == LabB(prog, 1).v
 \*   posts   : set of `for` post statements (None | statement)
 \*   conds   : set of `for` conditions (None | [k:"t",id:0])
 \*   ifinits : set of `if`/`switch` initialisers (None | def)
+\*   swinits : (optional) set of initialisers of tag switches, may yield / delegate
 \*   kinds   : subset of {"if","ifelse","switch","switchd","tswitch","block","for"}
 \*   jumps   : subset of {"return","break","continue"}
 \*   ranges  : (only with kind "range") set of range-loop headers
@@ -69,6 +70,9 @@ Jumps(A, ctx) == (IF "retx" \in A.jumps THEN {[k |-> "retx", id |-> 0]} ELSE {})
 \* an infinite loop must make progress: its first body statement spends budget, yields or leaves
 Productive(c, body) == ~IsNone(c) \/ (body # <<>> /\ Head(body).k \in {"eff", "effx", "unsup", "pullit", "iife", "nestgen", "yield", "ygen", "yfrom", "if", "switch", "break", "return", "retx", "panic"})
 Case(g, body) == [g |-> g, body |-> body, ft |-> FALSE]
+\* initialisers of a tag switch: the optional field swinits of the alphabet (a yielding / delegating simple
+\* statement:  switch Yield(v); tag { .. }), otherwise the if-initialisers
+SwInits(A) == IF "swinits" \in DOMAIN A THEN A.swinits ELSE A.ifinits
 Switch(init, form, cases) == [k |-> "switch", init |-> init, form |-> form, c |-> T0, cases |-> cases]
 
 \* composite statements of size n in context ctx, from the blocks of smaller size  B(i, ctx)
@@ -78,7 +82,7 @@ Composite(A, n, ctx, B(_, _)) ==
         THEN UNION {{[k |-> "if", init |-> None, c |-> T0, a |-> a, b |-> b] : a \in B(j, ctx), b \in B(n - 1 - j, ctx)} : j \in 1..(n - 2)}
         ELSE {})
   \cup (IF "switch" \in A.kinds      \* case true: a   default: d
-        THEN UNION {{Switch(i, "tag", <<Case("t", a), Case("d", d)>>) : i \in A.ifinits, a \in B(j, SwCtx(ctx)), d \in B(n - 1 - j, SwCtx(ctx))} : j \in 0..(n - 1)}
+        THEN UNION {{Switch(i, "tag", <<Case("t", a), Case("d", d)>>) : i \in SwInits(A), a \in B(j, SwCtx(ctx)), d \in B(n - 1 - j, SwCtx(ctx))} : j \in 0..(n - 1)}
         ELSE {})
   \cup (IF "switchd" \in A.kinds     \* default first, and a switch without default
         THEN UNION {{Switch(None, "tag", <<Case("d", d), Case("t", a)>>) : a \in B(j, SwCtx(ctx)), d \in B(n - 1 - j, SwCtx(ctx))} : j \in 0..(n - 1)}
